@@ -112,7 +112,7 @@ vproof! {
 //@ besteffort: yes
 //@ prop: C04
 //@ tier: thorough
-//@ cap: 5400
+//@ cap: 1500
 //@ funcs: Hypergeometric::new
 //@ bounds: every (N, K, n) in u64^3: Ok/Err judgement and absence of panics
 //@ assumes: fraction_of_products_of_factorials, ln_of_factorial = arbitrary f64; f64::ln, exp, sqrt by contract
@@ -156,7 +156,7 @@ vproof! {
 //@ besteffort: yes
 //@ prop: C02
 //@ tier: thorough
-//@ cap: 5400
+//@ cap: 1500
 //@ funcs: Hypergeometric::new (symmetry reductions)
 //@ bounds: every (N, K, n) in u64^3 accepted by new
 //@ assumes: fraction_of_products_of_factorials, ln_of_factorial = arbitrary f64 (over-approximation); f64::ln, exp, sqrt by contract
